@@ -318,9 +318,13 @@ class ExecutionState:
                 # is replayed from its record does not run its body again, so the operations inside it
                 # are never visited one by one - without this the logger would stay muted for good.
                 self._visited_operations.update(self._recorded_descendants(operation_id))
+                # snapshot under the lock: the background thread merges checkpoint responses
+                # into the map while this runs (in the `finally` of every operation)
+                with self._operations_lock:
+                    recorded_operations = list(self.operations.items())
                 completed_ops = {
                     op_id
-                    for op_id, op in self.operations.items()
+                    for op_id, op in recorded_operations
                     if op.operation_type != OperationType.EXECUTION
                     and op.status
                     in {
@@ -341,7 +345,9 @@ class ExecutionState:
     def _recorded_descendants(self, operation_id: str) -> set[str]:
         """Ids of all operations recorded (directly or transitively) beneath the given operation."""
         children: dict[str, list[str]] = {}
-        for op in self.operations.values():
+        with self._operations_lock:
+            recorded_operations = list(self.operations.values())
+        for op in recorded_operations:
             if op.parent_id:
                 children.setdefault(op.parent_id, []).append(op.operation_id)
         descendants: set[str] = set()
